@@ -688,7 +688,8 @@ func GenMetricRelabels(r *core.Rng) []Relabel {
 func GenJob(r *core.Rng, name string, scrapeable bool) Job {
 	j := Job{Name: name}
 	j.Scheme = r.PickS("", "", "http", "https")
-	j.MetricsPath = r.PickS("", "", "/metrics", "/probe", "/federate", "/custom/path")
+	// paths are sent verbatim by Prometheus: empty, dot and trailing segments are part of the URL
+	j.MetricsPath = r.PickS("", "", "/metrics", "/probe", "/federate", "/custom/path", "/actuator//prometheus", "/app/./metrics", "/a/../metrics", "/metrics/")
 	if r.Intn(3) == 0 {
 		j.Params = map[string][]string{}
 		switch r.Intn(3) {
